@@ -6,6 +6,29 @@ VERIF = Path(__file__).resolve().parent.parent
 ALL = [f"C{i:02d}" for i in range(1, 20)]
 
 CLAIMED = {
+    "C01": dict(
+        text="core/Design.tla defines what a source design denotes (leaf devices; partition of leaf-terminal and top-port bits into nets) "
+             "from the language semantics alone, core/Package.tla what an exported package denotes as the VLSIR netlisters read it, "
+             "core/Valid.tla which designs are well formed. Exhaustive micro-universes of designs (signals/slices/concats nested, port-"
+             "reference chains/fans/cycles, shared/named no-connects, bundles/sub-bundles/anonymous bundles incl. dict shorthand, arrays "
+             "broadcast/per-element, Pair, 3-level hierarchies with sharing; every net observable through probe leaves) are built with the "
+             "real API in several construction styles and exported; TLC (Trace_Conn) classifies each design and requires "
+             "PkgDenote(package) = Denote(source) and equal leaf tables.",
+        note="Trusted: harness/design.py (builder + package projector), harness/universe.py (enumeration), TLC. The netlister reading "
+             "(slice bot..top, concat parts MSB-first) is an explicit assumption. Valid designs the library rejects are counted, not "
+             "violations. Bounds: widths <= 6, <= 4 instances per module, depth <= 3; quick samples the larger universes.",
+        ref="6 C01", technique="TLA+ denotational specs (Design/Package/Valid) + TLC batch validation of exported packages"),
+    "C02": dict(
+        text="Valid!FaultClauses names, per design, every violated well-formedness rule; a design with a fault C02 lists must make "
+             "to_proto, netlist and (except for export-only faults) elaborate raise. Faulty designs are all universe designs TLC classifies "
+             "as faulty plus single-fault mutants planted at every site of valid designs (harness/faults.py: missing/extra connection, "
+             "references to missing ports/members, out-of-range/empty indices, width changes through every wrapper, foreign/orphan "
+             "signals, referenced no-connects, circular instantiation, unnamed and name-clashing modules). TLC confirms each mutant "
+             "really is faulty, so a legal mutant raises no alarm.",
+        note="Trusted: builder, planter, TLC. Rules C02 does not list (no-connect inside a concat/anonymous bundle, ...) put a design in "
+             "status 'unspecified' and nothing is demanded. Orphan instances/bundles are not planted yet.",
+        ref="6 C02", technique="TLA+ validity spec (Valid) + fault enumeration replayed through three entry points + TLC classification",
+        category="fault_enumeration"),
     "C09": dict(
         text="sched/GenCache.tla models generator.run and its process-global cache (hit / miss+pending / nested body calls / finish+name) "
              "and is model-checked (Memo, RunOnce, Distinct, NameStable, NameInjective, NoStalePending) over 4 generator kinds "
